@@ -236,6 +236,14 @@ def load (a : Art) (k : Key) : Art × Out :=
       | some n => ({ a with cache := a.cache ++ [(k, n)] }, .data n)
       | none => (a, .rejected)
 
+/-- what a CALLER can do: `x = art.load(k)` hands out the very object that sits in `Artifact._cache`; mutating
+`x` in place (so that it now equals the value with node `n'`) changes what the cache holds for `k` – and
+nothing else. -/
+def mutateLoaded (a : Art) (k : Key) (n' : Node) : Art × Out :=
+  match load a k with
+  | (a1, .data _) => ({ a1 with cache := a1.cache.map (fun e => if e.1 == k then (k, n') else e) }, .ok)
+  | r => r
+
 /-- `Artifact.clear_cache` -/
 def clearCache (a : Art) : Art := { a with cache := [] }
 
@@ -410,9 +418,15 @@ structure FArt where
   terms : List Term := []
 deriving DecidableEq, Repr
 
+/-- what a caller may do to the list `Artifact.keys` handed out -/
+inductive KeyEdit where
+  | removeKs | append | clear | reverse
+deriving DecidableEq, Repr
+
 inductive FOp where
   | op (o : Op)
   | reopenWith (terms : List Term)   -- the harness replaces its artifact by `Artifact(path, filter_terms=terms)`
+  | editReturnedKeys (e : KeyEdit)   -- `ks = art.keys`, then the caller edits `ks` in place
 deriving DecidableEq, Repr
 
 def FArt.step (fa : FArt) : FOp → FArt × Out
@@ -425,12 +439,15 @@ def FArt.step (fa : FArt) : FOp → FArt × Out
       match openArtifact fa.art with
       | some a' => ({ art := a', terms := t }, .ok)
       | none => (fa, .rejected)
+  -- `Keys.to_list` returns a copy (`fix:` F36): the caller's list is his own
+  | .editReturnedKeys _ => (fa, .ok)
 
 def FArt.run (fops : List FOp) (fa : FArt) : FArt := fops.foldl (fun s o => (s.step o).1) fa
 
 def FOp.key? : FOp → Option Key
   | .op o => o.key?
   | .reopenWith _ => none
+  | .editReturnedKeys _ => none
 
 /-- `pandas.read_hdf(columns=…)` on a stored Series selects by position in an empty selection when the
 draw filter's column list does not contain the Series' name: `IndexError` – the load raises. -/
